@@ -25,7 +25,7 @@ RULE = ('one workbook per generated table (key column of height 1-8, width 1-4, 
         'distinct = distinct (table, formula) or (function, row, column)')
 ASSUMPTIONS = ['approximate matching only on ascending numeric keys; every text key has one fixed spelling (mixed case), so equality never depends on case folding',
                'lookup values 0 and "" are not used when the key column contains blanks',
-               'INDEX with a 0 index, multi-area INDEX, binary-search XMATCH modes and VLOOKUP column 0 / > width are not asserted']
+               'INDEX with a 0 index, multi-area INDEX, the descending binary XMATCH mode (-2) and VLOOKUP column 0 / > width are not asserted']
 
 COLS = 'ABCDEFG'
 
@@ -152,7 +152,9 @@ def build(spec):
             qs.append(Q(mform, exp, f'MATCH:{mt}', boundary(v), tags + [f'mode:{mt}'] + (['above-all'] if above else []),
                         meta={'above_all': above, 'frac_vs_int': isinstance(v, float) and any(isinstance(k, int) for k in keys)}))
         elif fn == 'XMATCH':
-            sm = lk['mode']  # None (defaults), 1, -1
+            sm = lk['mode']  # None (defaults), 1, -1, 2 (binary search over ascending keys)
+            if sm == 2 and not (ascending and not isinstance(v, str) and len(set(keys)) == len(keys) and all(isinstance(k, (int, float)) for k in keys)):
+                continue    # the binary mode is determined only for strictly ascending numeric keys
             i = o_exact_last(keys, v) if sm == -1 else o_exact_first(keys, v)
             exp = i + 1 if i is not None else NA
             if sm is None:
@@ -293,7 +295,7 @@ def strategy():
             elif fn == 'MATCH':
                 lk['mode'] = draw(st.sampled_from([0, 0, 0, 1, 1, None]))
             elif fn == 'XMATCH':
-                lk['mode'] = draw(st.sampled_from([None, 1, -1, -1]))
+                lk['mode'] = draw(st.sampled_from([None, 1, -1, -1, 2, 2]))
                 lk['short'] = draw(st.booleans())
             lookups.append(lk)
         return {'kind': kind, 'keys': keys, 'width': width, 'lookups': lookups,
